@@ -28,13 +28,16 @@ DURS = [0, 1, -1, 999, 1000, 1500000, 1000000000, 3600000000000, -2500000000, 2*
 IPS = [b"\x7f\x00\x00\x01", bytes(range(16)), b"\x00" * 16, b"\xc0\xa8\x00\x01", b"\x00" * 10 + b"\xff\xff\x0a\x00\x00\x01", b"\x00" * 4, b"\xff" * 16,
        b"", b"\x01\x02\x03\x04\x05"]
 MACS = [b"\x00\x14\x22\x01\x23\x45", b"\xff" * 6, b"\x02\x00\x5e\x10\x00\x00\x00\x01", b"", b"\x00" * 20]
+# every width class of the prefix length as a CBOR integer: 0, < 24, 24 (one-byte argument), 32, 64, 127, 128 (the only value above int8)
 PREFIXES = [([192, 168, 0, 0], [255, 255, 0, 0]), ([192, 168, 0, 0], [255, 255, 255, 0]), ([10, 0, 0, 0], [0, 0, 0, 0]), ([10, 1, 2, 3], [255, 255, 255, 255]),
-            (list(range(16)), [255] * 8 + [0] * 8), ([10, 0, 0, 0], [255, 0, 255, 0])]
+            (list(range(16)), [255] * 8 + [0] * 8), ([0x20, 0x01, 0x0d, 0xb8] + [0] * 11 + [1], [255] * 16), ([0xfe, 0x80] + [0] * 14, [255] * 15 + [254]),
+            ([0] * 16, [0] * 16), ([10, 0, 0, 0], [255, 224, 0, 0]),
+            ([10, 0, 0, 0], [255, 0, 255, 0])]
 # what C08 / C09 name: IPs of 4 or 16 bytes, 6-byte MACs, canonical prefixes (the binary format has no notation for the others:
 # the bundled decoder rejects an 8- or 20-byte hardware address or an empty IP, and a non-contiguous mask has no prefix length)
 IPS_BIN = [x for x in IPS if len(x) in (4, 16)]
 MACS_BIN = [x for x in MACS if len(x) == 6]
-PREFIXES_BIN = PREFIXES[:5]
+PREFIXES_BIN = PREFIXES[:-1]
 
 
 def f64bits(x):
